@@ -47,7 +47,7 @@ CLAIMED = {
         text="clone() of each of the 12 classes builds a fresh same-class node whose children are the clones of the children on "
              "the same sides with id/payload/operand side copied; clone_from_root() returns the copy of the receiver at the "
              "same position of a complete copy (ancestor chains <= 2, every kind and side; and, with the real clone() on every "
-             "node, for every node of every tree of depth <= 2 over five node kinds). "
+             "node, for every node of every tree of depth <= 2 over five node kinds - also as a second request on the same tree object). "
              "Every tree a rewrite produces has consistent links (shared clause C07.R1).",
         note="Induction hypothesis for recursive clone() of proper subtrees; clone_from_root(other_node) not decided.",
         design="4 C13"),
@@ -56,7 +56,9 @@ CLAIMED = {
         text="Each visit_* over all child-presence shapes and stop positions emits exactly the defining order with true depth and "
              "immediate STOP; look-ups (to_list, find_id, find_type, get_side, get_sibling, get_children, get_root, "
              "get_root_side, is_leaf) agree with traversals and links in every local configuration. "
-             "The link queries are also analysed with node classes that compare by value (when the package defines any) among the operands.",
+             "The link queries are also analysed with node classes that compare by value (when the package defines any) among the operands. "
+             "find_id is judged on receivers inside a larger tree; a full traversal after a stopped one makes the callbacks of a fresh tree "
+             "(every shape with up to 4 nodes, every stop position and pair of orders).",
         note="Induction hypothesis for recursive visits of proper subtrees; descent of loop-based code bounded to 3 levels.",
         design="4 C14"),
     "C15": dict(
